@@ -181,6 +181,7 @@ type link struct {
 	writable    chan struct{}
 	shortMax    int
 	cutAt       int
+	tieAt       time.Time // deliver what is queued next at exactly this instant (see pump)
 	// tap observes every byte at the instant it enters the pipe (the wire
 	// monitor must see both directions in causal order: a write that blocks
 	// half-way has already put bytes on the wire that the peer may act on).
@@ -260,6 +261,30 @@ func (l *link) pump(fragMax int, delay time.Duration) {
 		}
 		if n == 0 {
 			<-l.pumpWake
+			continue
+		}
+		l.mu.Lock()
+		tie := l.tieAt
+		l.tieAt = time.Time{}
+		l.mu.Unlock()
+		if !tie.IsZero() && time.Until(tie) > 0 {
+			// Everything queued arrives at exactly that instant (the instant a
+			// deadline of the receiving stream's reader expires), in one piece
+			// and without the scheduler in between: the order of the two events
+			// of that instant is then the runtime's.
+			time.Sleep(time.Until(tie))
+			l.mu.Lock()
+			if !l.readClosed && !l.cut && l.cutAt < 0 {
+				chunk := l.inflight
+				l.rx.feed(chunk)
+				l.arrived = append(l.arrived, chunk...)
+				l.delivered += len(chunk)
+				l.inflight = nil
+				l.s.Count("probe.delivery_at_deadline_instant", 1)
+			}
+			l.mu.Unlock()
+			signal(l.readable)
+			signal(l.writable)
 			continue
 		}
 		if delay > 0 {
